@@ -11,6 +11,10 @@
 //	INSTALL k  the replica stops applying (lags) for the next k entries, which only the
 //	         other replica applies; then that replica's snapshot is installed on the LIVE
 //	         lagging StateMachine (Recover on a non-empty session table) and the stream goes on
+//	SAVE n   snapshot of the running replica (no restart). With a concurrent state machine
+//	         (header kind=conc) and n > 0 the next n entries are applied between the two steps
+//	         of concurrentSave (after prepare released s.mu, before the file is written)
+//	RESTART  fresh StateMachine: recover from the most recent snapshot, replay the log above it
 //	CAP      print the default rsm.LRUMaxSessionCount of the binary (cross-check of the generated constant)
 package main
 
@@ -30,7 +34,7 @@ type op struct {
 	n                         int // INSTALL: length of the lag window (entries)
 }
 
-func parseCase(line string) (id string, cap uint64, ops []op) {
+func parseCase(line string) (id string, cap uint64, conc bool, ops []op) {
 	head, body := line, ""
 	if i := strings.Index(line, " | "); i >= 0 {
 		head, body = line[:i], line[i+3:]
@@ -46,6 +50,9 @@ func parseCase(line string) (id string, cap uint64, ops []op) {
 			must(err)
 			cap = v
 		}
+		if h == "kind=conc" {
+			conc = true
+		}
 	}
 	for _, t := range strings.Split(body, " ; ") {
 		f := strings.Fields(t)
@@ -56,14 +63,17 @@ func parseCase(line string) (id string, cap uint64, ops []op) {
 		case "E":
 			u := func(s string) uint64 { v, err := strconv.ParseUint(s, 10, 64); must(err); return v }
 			ops = append(ops, op{kind: "E", client: u(f[1]), series: u(f[2]), responded: u(f[3]), cmd: vh.UnHex(f[4])})
-		case "INSTALL":
+		case "INSTALL", "SAVE":
 			n := 1
+			if f[0] == "SAVE" {
+				n = 0
+			}
 			if len(f) > 1 {
 				v, err := strconv.Atoi(f[1])
 				must(err)
 				n = v
 			}
-			ops = append(ops, op{kind: "INSTALL", n: n})
+			ops = append(ops, op{kind: f[0], n: n})
 		default:
 			ops = append(ops, op{kind: f[0]})
 		}
@@ -133,14 +143,14 @@ func runCase(line string, obs *vh.LineWriter, st *vh.Stats) {
 		runClientCase(line, obs, st)
 		return
 	}
-	id, cap, ops := parseCase(line)
+	id, cap, conc, ops := parseCase(line)
 	if cap == 0 {
 		obs.Printf("%s BADCAP\n", id)
 		return
 	}
 	fs := newFS()
-	r := newReplica(cap, fs, "a")
-	twin := newReplica(cap, newFS(), "t") // never snapshots: monitor for snapshot equivalence
+	r := newReplica(conc, cap, fs, "a")
+	twin := newReplica(conc, cap, newFS(), "t") // never snapshots: monitor for snapshot equivalence
 	viol := func(format string, a ...interface{}) { st.Violation(id, fmt.Sprintf(format, a...)) }
 
 	epoch := map[uint64]int{}
@@ -169,16 +179,60 @@ func runCase(line string, obs *vh.LineWriter, st *vh.Stats) {
 			viol("install: replica that installed the snapshot has %s sm=%d, replica that applied the log has %s sm=%d", showSessions(c1, after), r.usm.acc, showSessions(tc, td), twin.usm.acc)
 		}
 	}
+	var pend *pendingSave
+	saves, restarts, windowed := 0, 0, 0
+	closeSave := func() {
+		p := pend
+		pend = nil
+		fileOrder, mru, perr := r.saveEnd(p)
+		if perr != "" {
+			obs.Printf("%s %d SAVEFAIL\n", id, p.k)
+			viol("op %d: saving a snapshot failed: %s", p.k, perr)
+			return
+		}
+		obs.Printf("%s %d S %s sm=%d\n", id, p.k, fileOrder, p.acc)
+		if mru != p.table {
+			viol("snapshot image: the session table saved in the snapshot is %s, the table at the snapshot index was %s", mru, p.table)
+		}
+	}
 	for k, o := range ops {
 		if installDue {
 			installDue = false
 			doInstall(k - 1)
+		}
+		if pend != nil && (pend.left <= 0 || o.kind != "E") {
+			closeSave()
 		}
 		if lagLeft > 0 && o.kind != "E" {
 			obs.Printf("%s %d skip\n", id, k)
 			continue
 		}
 		switch o.kind {
+		case "SAVE":
+			st.Count("op.SAVE")
+			saves++
+			pend = r.saveBegin(k, o.n)
+			if pend.twoStep {
+				windowed++
+			}
+		case "RESTART":
+			st.Count("op.RESTART")
+			restarts++
+			c0, before := r.dump()
+			acc0 := r.usm.acc
+			nr, restored, perr := r.restart()
+			if perr != "" {
+				obs.Printf("%s %d RESTARTFAIL\n", id, k)
+				viol("op %d: restart (recover + replay) failed: %s", k, perr)
+				continue
+			}
+			r = nr
+			c1, after := r.dump()
+			obs.Printf("%s %d R %s\n", id, k, restored)
+			obs.Printf("%s %d T %s sm=%d\n", id, k, showSessions(c1, after), r.usm.acc)
+			if showSessions(c0, before) != showSessions(c1, after) || acc0 != r.usm.acc {
+				viol("restart: before the restart %s sm=%d, after recovering the latest snapshot and replaying the log %s sm=%d", showSessions(c0, before), acc0, showSessions(c1, after), r.usm.acc)
+			}
 		case "INSTALL":
 			st.Count("op.INSTALL")
 			if o.n > 0 {
@@ -203,6 +257,9 @@ func runCase(line string, obs *vh.LineWriter, st *vh.Stats) {
 				lagLeft--
 				installDue = lagLeft == 0
 			} else {
+				if pend != nil {
+					pend.left--
+				}
 				tres := twin.apply(o)
 				obs.Printf("%s %d %s\n", id, k, res.String())
 				if res.String() != tres.String() {
@@ -364,6 +421,9 @@ func runCase(line string, obs *vh.LineWriter, st *vh.Stats) {
 			obs.Printf("%s %d ? %s\n", id, k, o.kind)
 		}
 	}
+	if pend != nil {
+		closeSave()
+	}
 	if lagLeft > 0 || installDue {
 		doInstall(len(ops))
 	}
@@ -379,6 +439,12 @@ func runCase(line string, obs *vh.LineWriter, st *vh.Stats) {
 	st.Count(fmt.Sprintf("case.unknown_session<=%d", bucket(rejectedHits)))
 	st.Count(fmt.Sprintf("case.snaps<=%d", bucket(snaps)))
 	st.Count(fmt.Sprintf("case.installs<=%d", bucket(installs)))
+	st.Count(fmt.Sprintf("case.saves<=%d", bucket(saves)))
+	st.Count(fmt.Sprintf("case.restarts<=%d", bucket(restarts)))
+	st.Count(fmt.Sprintf("case.saves_with_entries_in_flight<=%d", bucket(windowed)))
+	if conc {
+		st.Count("case.kind=conc")
+	}
 	nontrivial := cachedHits > 0 && rejectedHits > 0 && ignoredHits > 0 && applies > 0
 	body := line
 	if i := strings.Index(line, " "); i >= 0 {
